@@ -648,24 +648,81 @@ func registerStubs(e *Engine) {
 		if a.IsConst() && b.IsConst() {
 			return ret(in.tb.Bool(strings.EqualFold(a.S, b.S)))
 		}
+		// short strings: the real function on the byte-vector view; longer ones: uninterpreted
+		ea, oka := in.explodeStr(a, in.E.Cfg.MaxStrExplode)
+		eb, okb := in.explodeStr(b, in.E.Cfg.MaxStrExplode)
+		if oka && okb && in.allASCII(ea) && in.allASCII(eb) {
+			return in.runReal(fn, []Value{ea, eb}), true
+		}
 		return ret(in.noteUF(in.tb.UF("strings.EqualFold", SortBool, a, b)))
 	}
 	S["strings.ReplaceAll"] = func(in *Interp, fn *ssa.Function, args []Value) (Value, bool) {
 		return ret(in.tb.StrOp("str.replace_all", SortStr, args[0].(*Term), args[1].(*Term), args[2].(*Term)))
 	}
-	S["strings.ToLower"] = func(in *Interp, fn *ssa.Function, args []Value) (Value, bool) {
-		a := args[0].(*Term)
+	trimSpace := func(in *Interp, fn *ssa.Function, a *Term) *Term {
 		if a.IsConst() {
-			return ret(in.tb.Str(strings.ToLower(a.S)))
+			return in.tb.Str(strings.TrimSpace(a.S))
 		}
-		return ret(in.noteUF(in.tb.UF("strings.ToLower", SortStr, a)))
+		if ea, ok := in.explodeStr(a, in.E.Cfg.MaxStrExplode); ok && in.allASCII(ea) {
+			sfn := fn
+			if fn.Pkg.Pkg.Path() != "strings" {
+				sp := in.E.Prog.ImportedPackage("strings")
+				if sp == nil {
+					panic(in.abort("package strings not loaded"))
+				}
+				sfn = sp.Func("TrimSpace")
+			}
+			return in.runReal(sfn, []Value{ea}).(*Term)
+		}
+		// longer / non-ASCII text: uninterpreted, with the facts every TrimSpace result satisfies: it is a
+		// substring of the input, not longer, and neither starts nor ends with an ASCII space character
+		tb := in.tb
+		r := in.noteUF(tb.UF("strings.TrimSpace", SortStr, a))
+		inReOf := func(x *Term, pat string) *Term {
+			rl, err := reToSMT(pat)
+			if err != nil {
+				panic(in.abort("regexp %q: %v", pat, err))
+			}
+			return tb.app("str.in_re", SortBool, x, tb.intern(&Term{Op: "raw", Sort: Sort{K: KInt, W: -7}, S: rl}))
+		}
+		inRe := func(pat string) *Term { return inReOf(r, pat) }
+		in.assertPC(tb.And(tb.StrOp("str.contains", SortBool, a, r),
+			tb.IntCmp("<=", tb.StrLenInt(r), tb.StrLenInt(a)),
+			tb.Not(inRe(`^[\t\n\v\f\r ]`)), tb.Not(inRe(`[\t\n\v\f\r ]$`)),
+			// text that begins and ends with an ASCII non-space byte is returned unchanged
+			tb.Implies(inReOf(a, `^[\x21-\x7f](.*[\x21-\x7f])?$`), tb.Eq(r, a))))
+		return r
 	}
 	S["strings.TrimSpace"] = func(in *Interp, fn *ssa.Function, args []Value) (Value, bool) {
-		a := args[0].(*Term)
-		if a.IsConst() {
-			return ret(in.tb.Str(strings.TrimSpace(a.S)))
+		return ret(trimSpace(in, fn, args[0].(*Term)))
+	}
+	S["bytes.TrimSpace"] = func(in *Interp, fn *ssa.Function, args []Value) (Value, bool) {
+		if args[0] == nil {
+			return nil, false
 		}
-		return ret(in.noteUF(in.tb.UF("strings.TrimSpace", SortStr, a)))
+		if sl, ok := args[0].([]Value); ok && sl == nil {
+			return nil, false
+		}
+		r := trimSpace(in, fn, in.bytesToStr(args[0]))
+		if r.IsConst() && r.S == "" {
+			return ret([]Value(nil)) // bytes.TrimSpace returns nil when everything is trimmed
+		}
+		return ret(in.strToBytes(r))
+	}
+	for _, nm := range []string{"ToLower", "ToUpper"} {
+		nm := nm
+		host := map[string]func(string) string{"ToLower": strings.ToLower, "ToUpper": strings.ToUpper}[nm]
+		S["strings."+nm] = func(in *Interp, fn *ssa.Function, args []Value) (Value, bool) {
+			a := args[0].(*Term)
+			if a.IsConst() {
+				return ret(in.tb.Str(host(a.S)))
+			}
+			// short strings: the real function on the byte-vector view; longer ones: uninterpreted
+			if ea, ok := in.explodeStr(a, in.E.Cfg.MaxStrExplode); ok && in.allASCII(ea) {
+				return in.runReal(fn, []Value{ea}), true
+			}
+			return ret(in.noteUF(in.tb.UF("strings."+nm, SortStr, a)))
+		}
 	}
 	S["strings.Join"] = func(in *Interp, fn *ssa.Function, args []Value) (Value, bool) {
 		var parts []*Term
